@@ -929,8 +929,19 @@ def emit_lazy_static(name, ty, expr, tlog):
     return (LAZY_TMPL % {"n": name, "lit": lit}).encode()
 
 
+import threading
+_ASSEMBLE_LOCK = threading.Lock()
+
+
 def assemble_unit(unit_dir, repo=None, canary=False):
-    """returns dict(text, manifest, transformations, fn_lines, unit)"""
+    """returns dict(text, manifest, transformations, fn_lines, unit)
+    (the per-unit settings STRUCTURAL / DERIVED_DEFAULT / CRASH_ACTIVE are module globals and check.py assembles units from several
+    threads: one unit is assembled at a time; the Verus runs stay parallel)"""
+    with _ASSEMBLE_LOCK:
+        return _assemble_unit(unit_dir, repo, canary)
+
+
+def _assemble_unit(unit_dir, repo=None, canary=False):
     repo = repo or REPO
     unit = tomllib.load(open(os.path.join(unit_dir, "unit.toml"), "rb"))
     C = Contracts(open(os.path.join(unit_dir, "contracts.vs")).read()) if os.path.exists(os.path.join(unit_dir, "contracts.vs")) else Contracts("")
